@@ -237,12 +237,23 @@ def _hetero(template, name, resname, chain, resnum, xyz, element):
 
 def v_unknown_element(items):
     """Append a hetero atom whose element propka's valence table lacks
-    (first sight mutates a process-lifetime dict: source S2)."""
-    atoms = [it for k, it in items if k == 'A']
-    if not atoms:
-        return None
-    a = atoms[len(atoms) // 2]
-    pos = (a.x + 6.0, a.y + 5.0, a.z + 4.0)
+    (first sight mutates a process-lifetime dict: source S2), attached to one
+    heavy atom like a dummy attachment point (1.5 A beyond a CB, away from CA)."""
+    res = P.residues(items)
+    cands = []
+    for key, idx in res:
+        names = {items[i][1].name.strip(): items[i][1] for i in idx}
+        if key[3] in PROTEIN_RES and 'CA' in names and 'CB' in names:
+            cands.append((names['CA'], names['CB']))
+    if not cands:
+        atoms = [it for k, it in items if k == 'A']
+        if not atoms:
+            return None
+        a = atoms[len(atoms) // 2]
+        pos = (a.x + 6.0, a.y + 5.0, a.z + 4.0)
+    else:
+        ca, a = cands[len(cands) // 2]
+        pos = P.add(a.xyz, P.unit(P.sub(a.xyz, ca.xyz)), 1.5)
     rec = _hetero(a, ' D1 ', 'UNL', a.chain, 900, pos, 'D')
     return list(items) + [('A', rec)]
 
